@@ -13,7 +13,8 @@ for pid in sorted(registry.CHECKS):
         mod.regenerate(None)
 targets = ['Props/%s.vo' % pid for pid in sorted(registry.CHECKS)]
 # further statement files of a claimed property (Props/<Cxx>gen.v: sentences about the model generated from the source)
-targets += ['Props/%sgen.vo' % pid for pid in sorted(registry.CHECKS) if os.path.exists(os.path.join(common.COQ, 'Props', pid + 'gen.v'))]
+import glob
+targets += ['Props/' + os.path.basename(f) + 'o' for pid in sorted(registry.CHECKS) for f in sorted(glob.glob(os.path.join(common.COQ, 'Props', pid + 'gen*.v')))]
 ok, log = common.coq_make(targets, timeout=3000)
 print(log[-4000:])
 g = common.gate_scan()
